@@ -1,5 +1,5 @@
 """C07 - mandoline 3D slices interpolate the right samples at every pixel."""
-import json
+import json, os
 from fractions import Fraction as Fr
 import numpy as np
 from .. import plotgen, oracle, leanio, pools, geom
@@ -48,6 +48,8 @@ def positions(spec, cn, rng, n_extra=4):
             out.append((f"L{lv}:centre-ulps", c - k * float(np.spacing(c))))
     for _ in range(n_extra):
         out.append(("random", g + rng.randrange(1, N * 64) * d0 / 64))
+    if g < 0.0 < G:
+        out.append(("zero", 0.0))        # the coordinate 0 (falsy as an option value)
     seen, uniq = set(), []
     for nm, p in out:
         if p not in seen:
@@ -145,10 +147,14 @@ def spec_candidates(spec, levels, cn, pos):
     return sv, out
 
 
-def run_slice(path, fields, limit, serial, cn, pos, start=None, cache=None):
-    """cache: reuse one Mandoline object for several slices (the object keeps normal and position)"""
+def run_slice(path, fields, limit, serial, cn, pos, start=None, cache=None, cli_out=None):
+    """cache: reuse one Mandoline object for several slices (the object keeps normal and position);
+    cli_out: go through the console script (format "array", saved under this name) instead of the API"""
     from amr_kitchen.mandoline.mandoline import Mandoline
     with alarm(180), quiet(), geom.tainted_empty(), pools.controlled(start=start):
+        if cli_out is not None:
+            from .. import tools
+            return tools.mandoline_cli(path, "array", cli_out, fields, cn, pos, limit, serial), None
         key = (path, tuple(fields), limit, serial)
         if cache is not None and key in cache:
             m = cache[key]
@@ -160,7 +166,7 @@ def run_slice(path, fields, limit, serial, cn, pos, start=None, cache=None):
 
 
 def run_case(ctx, rep, spec, cn, posname, pos, fields, limit, serial, model, path=None, truth=None, start=None, batch=None,
-             cache=None):
+             cache=None, cli=False):
     if path is None:
         path = ctx.newdir("c07_")
         truth = plotgen.materialize(spec, path)
@@ -168,14 +174,23 @@ def run_case(ctx, rep, spec, cn, posname, pos, fields, limit, serial, model, pat
     nlev = len(spec["levels"])
     L = nlev - 1 if limit is None else limit
     g = spec["geo_low"][cn]; G = g + spec["grid0"][cn] * spec["dx0"][cn]
-    case = {"spec": spec, "normal": cn, "posname": posname, "pos": pos, "fields": fields, "limit": limit, "serial": serial}
-    rep.case({"s": spec, "n": cn, "p": pos, "f": fields, "l": limit, "ser": serial},
+    case = {"spec": spec, "normal": cn, "posname": posname, "pos": pos, "fields": fields, "limit": limit, "serial": serial, "cli": cli}
+    if cli: rep.count("console-script")
+    if isinstance(fields, str): rep.count("bare-string-field")
+    rep.case({"s": spec, "n": cn, "p": pos, "f": fields, "l": limit, "ser": serial, "cli": cli},
              nontrivial=(nlev >= 2 or not posname.startswith("L0:centre")))
     rep.count("pos:" + posname.split(":")[-1]); rep.count(f"normal:{cn}")
     try:
         if cache is not None:
             rep.count("reused-mandoline-object")
-        out, m = run_slice(path, fields, limit, serial, cn, pos, start, cache)
+        out, m = run_slice(path, fields, limit, serial, cn, pos, start, None if cli else cache,
+                           cli_out=os.path.join(ctx.newdir("c07cli_") ) if cli else None)
+        if out is not None and "slice_pos" in out:
+            out = dict(out); out["slice_pos"] = float(out["slice_pos"])
+    except SystemExit as e:
+        if pos is not None and (pos < g or pos > G) and e.code not in (0, None):
+            return
+        rep.fail(f"the mandoline console script exited ({e.code})", case); return
     except ValueError as e:
         if pos is not None and (pos < g or pos > G):
             return        # refused, as required
@@ -190,8 +205,12 @@ def run_case(ctx, rep, spec, cn, posname, pos, fields, limit, serial, model, pat
             return
         pos = out["slice_pos"]
     cx, cy = [i for i in range(3) if i != cn]
+    fields = [fields] if isinstance(fields, str) else fields
     flist = [f for f in fields if f != "grid_level"]
     do_grid = "grid_level" in fields
+    extra_keys = [k for k in out if k not in set(fields) | {"x", "y", "z", "slice_pos", "normal", "time", "grid_level", "pos"} and k in names]
+    if extra_keys:
+        rep.fail(f"the slice holds fields that were not requested: {extra_keys}", case); return
     mode = spec["data"]["mode"]
     nbad = 0
     for fname in flist:
@@ -285,6 +304,9 @@ def run(ctx, rep, model=True):
                                    layout="scatter", exact=(i % 4 != 3))     # every fourth mesh: cell sizes / origin that are no dyadic numbers
         path = ctx.newdir("c07_")
         truth = plotgen.materialize(spec, path)
+        if i % 2 == 1 and len(spec["fields"]) >= 2:
+            spec["fields"][1] = ["wall_dist", "overall_hr", "Y(all)"][i % 3]       # a field name containing the keyword "all"
+            os.remove(os.path.join(path, "Header")); import shutil; shutil.rmtree(path); truth = plotgen.materialize(spec, path)
         names = list(dedup_names(spec["fields"]))
         nlev = len(spec["levels"])
         batch = [] if model else None
@@ -302,9 +324,12 @@ def run(ctx, rep, model=True):
                           ["grid_level", names[-1], names[1], names[0]][: 2 + len(names) - 1], [names[1]]][j % 6]
                 limit = [None, None, nlev - 1, 0, None, max(nlev - 2, 0)][j % 6]
                 serial = j % 2 == 0
+                cli = (j % 6 == 3 and j % 4 == 1) or nm == "zero" or (j % 12 == 5)
+                if j % 6 == 5 and not cli:
+                    fields = names[1]          # a single field given as a bare string
                 run_case(ctx, rep, spec, cn, nm, pos, fields, limit, serial, model, path, truth,
                          start=[None, pools.order_reversed][j % 2], batch=batch,
-                         cache=cache if (j % 3 != 0 and pos is not None) else None)
+                         cache=cache if (j % 3 != 0 and pos is not None) else None, cli=cli)
                 if len(rep.violations) >= 12:
                     flush_model(rep, batch)
                     return
@@ -331,5 +356,6 @@ def replay(ctx, rep, obj, model=True):
     c = obj["case"]
     batch = [] if model else None
     pos = c["pos"] if c.get("posname") != "default" else None
-    run_case(ctx, rep, c["spec"], c["normal"], c.get("posname", "?"), pos, c["fields"], c["limit"], c["serial"], model, batch=batch)
+    run_case(ctx, rep, c["spec"], c["normal"], c.get("posname", "?"), pos, c["fields"], c["limit"], c["serial"], model, batch=batch,
+             cli=c.get("cli", False))
     flush_model(rep, batch)
